@@ -45,7 +45,10 @@ def run_job(job: dict) -> dict:
     prop = props.get(job["prop"])
     mode = job.get("mode", "gen-run")
     if mode == "gen-run":
-        history = prop.gen(job["seed"], job.get("tier", "quick"))
+        from . import model
+
+        with model.headroom():
+            history = prop.gen(job["seed"], job.get("tier", "quick"))
         history.setdefault("seed", job["seed"])
         history.setdefault("prop", job["prop"])
         history.setdefault("tier", job.get("tier", "quick"))
@@ -86,6 +89,7 @@ def _child(job: dict, wfd: int):
             res = {"harness_error": f"{type(e).__name__}: {e}", "trace": traceback.format_exc()[-4000:]}
         res["id"] = job.get("id")
         res["hashseed"] = os.environ.get("PYTHONHASHSEED", "")
+        sys.setrecursionlimit(max(sys.getrecursionlimit(), 200_000))  # harness-only from here on
         data = json.dumps(res).encode()
         off = 0
         while off < len(data):
